@@ -72,6 +72,7 @@ bool ecdsa_parse_der_strict(const B &der, Sig &out);                  // d2i_ECD
 // Build (digest, r, s) from the private key such that in verification u1*G == u2*Q (kind 0, valid signature,
 // needs the point-doubling path) or u1*G == -u2*Q (kind 1, sum is infinity, invalid signature).
 bool ecdsa_special(const Ec *k, int kind, const B &t, const B &rsel, B &digest, Sig &out);
+bool ecdsa_chosen_s(const Ec *k, const B &ksel, const B &s, B &digest, Sig &out);   // valid signature with a chosen (e.g. tiny) s
 // 0 = not a valid public point; 1 = valid, standard uncompressed encoding; 2 = valid compressed/hybrid encoding
 int point_check(CurveId c, const B &oct);
 bool point_numeric_valid(CurveId c, const B &x, const B &y);  // 0 <= x,y < p, on curve
